@@ -122,7 +122,7 @@ class TravBase(Check):
             nl = rng.randint(0, 12)
             links = []
             for _ in range(nl):
-                k = rng.choice(["D", "D", "U", "DD", "UU"] + (["X"] if rng.random() < (0.15 if self.searches else 1) else []))
+                k = rng.choice(["D", "D", "U", "DD", "UU", "DU"] + (["X"] if rng.random() < (0.15 if self.searches else 1) else []))
                 a = rng.randrange(nv)
                 b = a if rng.random() < 0.15 else rng.randrange(nv)
                 if rng.random() < 0.04:
@@ -153,7 +153,8 @@ class TravBase(Check):
             for _ in range(3):
                 yield from gen.uni_ops(p)
         opsfn = all_ops if rng.random() < 0.3 else clean_ops
-        lines, outs = gen.random_history(rng, real, opsfn, rng.randint(4, 25), audit=())
+        lines, outs = gen.random_history(rng, real, opsfn, rng.randint(4, 25), audit=(),
+                                         attr_values=([0, 1, 1, 5] if self.searches else None))
         p = gen.Pool()
         for l, o in zip(lines, outs):
             p = p.after(l, o)
@@ -171,11 +172,44 @@ class TravBase(Check):
                     for t in ("bft", "dftr", "dfti"):
                         qs.append("%s %s %s %d %d - - %s" % (t, u, v, d, k, rng.choice(["list", "list", "gen"])))
         if len(qs) > 80:
-            qs = rng.sample(qs, 80)
+            keep = [q for q in qs if q.split()[0] in SEARCH] if self.searches else []
+            rest = [q for q in qs if q not in keep]
+            qs = keep[:90] + rng.sample(rest, min(len(rest), max(0, 80 - len(keep))))
         if rng.random() < 0.3:
             qs = ["flag on"] + qs
         more = [real.step(q) for q in qs]
-        return lines + qs, outs + more
+        lines, outs = lines + qs, outs + more
+        # second phase: the graph / the memberships change again after the first queries
+        if rng.random() < 0.6:
+            for _ in range(rng.randint(1, 3)):
+                cands = list(clean_ops(p))
+                if not cands:
+                    break
+                op = rng.choice(cands)
+                lines.append(op)
+                outs.append(real.step(op))
+                p = p.after(op, outs[-1])
+            q2 = rng.sample(qs, min(len(qs), 40))
+            q2 = [q for q in q2 if q != "flag on"]
+            # a member leaves a universe through the VERTEX-side call; everything is asked again there
+            inner = real.inner
+            withm = [i for i in p.unis if inner.V[i].vertices]
+            if withm and rng.random() < 0.7:
+                ui = rng.choice(withm)
+                m = rng.choice(inner.V[ui].vertices)
+                op = "%s V%d V%d" % (("vrem", inner.vname(m), ui) if rng.random() < 0.7 else ("urem", ui, inner.vname(m)))
+                lines.append(op)
+                outs.append(real.step(op))
+                for v in vs:
+                    for t in (("bfs", "dfsr", "dfsi") if self.searches else ("bft", "dftr", "dfti")):
+                        if self.searches:
+                            for val in (0, 1, 5):
+                                q2.append("%s V%d %s 0 %d" % (t, ui, v, val))
+                        else:
+                            q2.append("%s V%d %s %d %d - - list" % (t, ui, v, rng.choice([0, 1, 2]), rng.choice([0, 1])))
+            lines += q2
+            outs += [real.step(q) for q in q2]
+        return lines, outs
 
     def one(self, real, rng, nv, links, full, sample=None):
         attrs, classes = {}, {}
